@@ -1288,6 +1288,16 @@ func (fb *FB) successFacts(ev ssa.Value, out []Lin) []Lin {
 		return out
 	}
 	sum := fb.c.successSummary(callee, 0)
+	// arguments that are constants at this call site make more of the callee linear (n > len(buf)/width with width = 8)
+	consts := map[int]int64{}
+	for i, a := range call.Call.Args {
+		if l := fb.lin(a); l.isConst() && i < len(callee.Params) && isIntType(callee.Params[i].Type()) {
+			consts[i] = l.C
+		}
+	}
+	if len(consts) > 0 {
+		sum = append(append([]Lin{}, sum...), fb.c.successSummaryConst(callee, consts)...)
+	}
 	for _, s := range sum {
 		// substitute parameters and the function's non-error results
 		l := linConst(s.C)
@@ -2360,4 +2370,120 @@ func (fb *FB) boolHelperFacts(call *ssa.Call, val bool, out []Lin) []Lin {
 		}
 	}
 	return out
+}
+
+// successSummaryConst: like successSummary, for a call whose integer arguments `consts` (parameter index -> value) are
+// constants: the parameters are replaced by their values, quotients by such a parameter get their defining inequalities
+// (A - k*q >= 0, k*q + k-1 - A >= 0), and symbols local to the callee are eliminated by combining facts (Fourier-Motzkin),
+// so that e.g. `if n > len(buf)/width { return err }` with width = 8 yields len(buf) - 8*n >= 0 on success.
+func (c *Ctx) successSummaryConst(fn *ssa.Function, consts map[int]int64) []Lin {
+	if len(fn.Blocks) > 40 {
+		return nil
+	}
+	fb := c.FB(fn)
+	errIdx := errResultIndex(fn.Signature)
+	subst := func(l Lin) Lin {
+		out := linConst(l.C)
+		for k, coef := range l.T {
+			if p, ok := k.(*ssa.Parameter); ok {
+				if v, has := consts[paramIndex(fn, p)]; has {
+					out = out.add(linConst(v), coef)
+					continue
+				}
+			}
+			out = out.add(linSym(k), coef)
+		}
+		return out
+	}
+	var common []Lin
+	first := true
+	for _, ret := range returnsOf(fn) {
+		if errIdx >= 0 && !mayBeNil(retOperand(ret, errIdx), map[ssa.Value]bool{}) {
+			continue
+		}
+		var facts []Lin
+		for _, f := range fb.blockFacts(ret.Block()) {
+			facts = append(facts, subst(f))
+		}
+		// quotients by a now-constant parameter
+		seen := map[ssa.Value]bool{}
+		for _, f := range append([]Lin{}, facts...) {
+			for k := range f.T {
+				bo, ok := k.(*ssa.BinOp)
+				if !ok || bo.Op != token.QUO || seen[bo] {
+					continue
+				}
+				seen[bo] = true
+				den := subst(fb.lin(bo.Y))
+				if !den.isConst() || den.C <= 0 || den.C > 1<<20 {
+					continue
+				}
+				if lo, _ := fb.rng(bo.X); lo < 0 {
+					continue
+				}
+				num := subst(fb.lin(bo.X))
+				q := linSym(ssa.Value(bo))
+				facts = append(facts, num.add(q, -den.C), q.scale(den.C).add(linConst(den.C-1), 1).add(num, -1))
+			}
+		}
+		// eliminate callee-local symbols
+		for round := 0; round < 4; round++ {
+			var local interface{}
+			for _, f := range facts {
+				for k := range f.T {
+					if !onlyParamSyms(fn, Lin{T: map[interface{}]int64{k: 1}}) {
+						local = k
+					}
+				}
+			}
+			if local == nil {
+				break
+			}
+			var pos, neg, rest []Lin
+			for _, f := range facts {
+				switch cf := f.T[local]; {
+				case cf > 0:
+					pos = append(pos, f)
+				case cf < 0:
+					neg = append(neg, f)
+				default:
+					rest = append(rest, f)
+				}
+			}
+			if len(pos)*len(neg) > 64 {
+				pos, neg = nil, nil
+			}
+			for _, p := range pos {
+				for _, n := range neg {
+					cp, cn := p.T[local], -n.T[local]
+					if cp > 1<<20 || cn > 1<<20 {
+						continue
+					}
+					rest = append(rest, p.scale(cn).add(n, cp))
+				}
+			}
+			facts = rest
+		}
+		var keep []Lin
+		for _, f := range facts {
+			if !f.isConst() && onlyParamSyms(fn, f) {
+				keep = append(keep, f)
+			}
+		}
+		if first {
+			common, first = keep, false
+		} else {
+			var inter []Lin
+			for _, a := range common {
+				for _, b := range keep {
+					if a.equal(b) {
+						inter = append(inter, a)
+						break
+					}
+				}
+			}
+			common = inter
+		}
+	}
+	return common
 }
